@@ -4,6 +4,7 @@
 //! index reopened with the real code.
 
 use std::collections::{BTreeMap, BTreeSet};
+use std::io::Write;
 use std::path::{Path, PathBuf};
 use std::sync::Arc;
 
@@ -164,7 +165,11 @@ fn recover(cfg: &Cfg, wroot: &Path, root: &Path, files: &BTreeMap<PathBuf, Vec<u
   Ok((idx, c))
 }
 
-pub fn run_case(case: &CorruptCase, wroot: &Path, stats: &mut Stats) -> CorruptRun {
+/// In-process execution. `start_from` skips the first mutations (a child that
+/// died is restarted behind the culprit); `progress` receives one line per
+/// mutation *before* it is applied, so that the parent knows which one killed
+/// the process.
+pub fn run_case_inproc(case: &CorruptCase, wroot: &Path, stats: &mut Stats, start_from: usize, mut progress: Option<&mut dyn std::io::Write>) -> CorruptRun {
   let ids = SimIds::new();
   install_ids(&ids);
   let mut run = CorruptRun {
@@ -278,7 +283,14 @@ pub fn run_case(case: &CorruptCase, wroot: &Path, stats: &mut Stats) -> CorruptR
       }
     }
   }
-  for m in muts {
+  for (mi, m) in muts.into_iter().enumerate() {
+    if mi < start_from {
+      continue;
+    }
+    if let Some(p) = progress.as_mut() {
+      let _ = writeln!(p, "M {} {}", mi, serde_json::to_string(&m).unwrap_or_default());
+      let _ = p.flush();
+    }
     let (name, mutated) = match &m {
       Mutation::Flip { file, offset, mask } => {
         let path = root.join(file);
@@ -404,6 +416,156 @@ pub fn run_case(case: &CorruptCase, wroot: &Path, stats: &mut Stats) -> CorruptR
   stats.fingerprints.insert(crate::rng::hash_bytes(17, shape.as_bytes()));
   verif::fs::unmount(wroot);
   run
+}
+
+/// Every case runs in a child process: a corrupted length can turn into an
+/// impossible allocation, which aborts the process instead of unwinding. The
+/// parent turns such a death into a violation and restarts the child behind
+/// the mutation that caused it.
+pub fn run_case(case: &CorruptCase, wroot: &Path, stats: &mut Stats) -> CorruptRun {
+  use std::io::{BufRead, BufReader, Write as _};
+  use std::process::{Command, Stdio};
+  let mut run = CorruptRun {
+    violations: Vec::new(),
+    trace: Vec::new(),
+    pins: Vec::new(),
+  };
+  let exe = match std::env::current_exe() {
+    Ok(e) => e,
+    Err(_) => return run_case_inproc(case, wroot, stats, 0, None),
+  };
+  let mut start_from = 0usize;
+  for _round in 0..6 {
+    let mut child = match Command::new(&exe).arg("corrupt-child").stdin(Stdio::piped()).stdout(Stdio::piped()).stderr(Stdio::null()).spawn() {
+      Ok(c) => c,
+      Err(_) => return run_case_inproc(case, wroot, stats, start_from, None),
+    };
+    let req = json!({"case": case, "wroot": wroot, "start_from": start_from});
+    if let Some(mut stdin) = child.stdin.take() {
+      let _ = stdin.write_all(serde_json::to_string(&req).unwrap().as_bytes());
+    }
+    let mut last: Option<(usize, Mutation)> = None;
+    let mut done = false;
+    if let Some(out) = child.stdout.take() {
+      for line in BufReader::new(out).lines().map_while(|l| l.ok()) {
+        if let Some(rest) = line.strip_prefix("M ") {
+          let mut it = rest.splitn(2, ' ');
+          let idx = it.next().and_then(|s| s.parse::<usize>().ok());
+          let m = it.next().and_then(|s| serde_json::from_str::<Mutation>(s).ok());
+          if let (Some(i), Some(m)) = (idx, m) {
+            last = Some((i, m));
+          }
+        } else if let Some(rest) = line.strip_prefix("R ") {
+          if let Ok(v) = serde_json::from_str::<Value>(rest) {
+            for x in v.get("violations").and_then(|x| x.as_array()).cloned().unwrap_or_default() {
+              let viol = Violation::new(
+                &["C17"],
+                x.get("class").and_then(|s| s.as_str()).unwrap_or(""),
+                x.get("site").and_then(|s| s.as_str()).unwrap_or(""),
+                0,
+                x.get("detail").and_then(|s| s.as_str()).unwrap_or("").to_string(),
+              );
+              if let Some(m) = x.get("pin").and_then(|p| serde_json::from_value::<Mutation>(p.clone()).ok()) {
+                run.pins.push((viol.clone(), m));
+              }
+              if !run.violations.iter().any(|o| o.same_kind(&viol)) {
+                run.violations.push(viol);
+              }
+            }
+            for (k, n) in v.get("counters").and_then(|c| c.as_object()).cloned().unwrap_or_default() {
+              stats.add(&k, n.as_u64().unwrap_or(0));
+            }
+            for s in v.get("sites").and_then(|c| c.as_array()).cloned().unwrap_or_default() {
+              if let Some(s) = s.as_str() {
+                stats.sites.insert(s.to_string());
+              }
+            }
+            for f in v.get("fingerprints").and_then(|c| c.as_array()).cloned().unwrap_or_default() {
+              if let Some(f) = f.as_u64() {
+                stats.fingerprints.insert(f);
+              }
+            }
+            for t in v.get("trace").and_then(|c| c.as_array()).cloned().unwrap_or_default() {
+              if let Some(t) = t.as_str() {
+                run.trace.push(t.to_string());
+              }
+            }
+            done = true;
+          }
+        }
+      }
+    }
+    let status = child.wait();
+    if done {
+      break;
+    }
+    // the child died (abort / signal) while working on `last`
+    match last {
+      Some((i, m)) => {
+        let (file, what) = match &m {
+          Mutation::Flip { file, offset, mask } => (file.clone(), format!("byte {} of {} xor 0x{:02x}", offset, file, mask)),
+          Mutation::Truncate { file, len } => (file.clone(), format!("{} truncated to {} bytes", file, len)),
+        };
+        stats.inc("probe.child_process_died");
+        let viol = Violation::new(
+          &["C17"],
+          "abort",
+          &file_class(&file),
+          0,
+          format!("{}: opening / searching the index killed the process ({:?}) - e.g. an allocation sized by a corrupted length", what, status.map(|s| s.to_string())),
+        );
+        if !run.violations.iter().any(|o| o.same_kind(&viol)) {
+          run.pins.push((viol.clone(), m));
+          run.violations.push(viol);
+        }
+        run.trace.push(format!("child died at mutation {}", i));
+        start_from = i + 1;
+        if case.pin.is_some() {
+          break;
+        }
+      }
+      None => {
+        run.violations.push(Violation::new(&["C17"], "abort", "build", 0, "the child process died before the first mutation".into()));
+        break;
+      }
+    }
+  }
+  run
+}
+
+/// Entry point of the child process (`simcheck corrupt-child`).
+pub fn child_main() -> i32 {
+  use std::io::Read as _;
+  let mut input = String::new();
+  if std::io::stdin().read_to_string(&mut input).is_err() {
+    return 2;
+  }
+  let Ok(v) = serde_json::from_str::<Value>(&input) else { return 2 };
+  let Ok(case) = serde_json::from_value::<CorruptCase>(v.get("case").cloned().unwrap_or(Value::Null)) else { return 2 };
+  let wroot = PathBuf::from(v.get("wroot").and_then(|w| w.as_str()).unwrap_or("/sim/w00"));
+  let start_from = v.get("start_from").and_then(|s| s.as_u64()).unwrap_or(0) as usize;
+  let mut stats = Stats::default();
+  let stdout = std::io::stdout();
+  let mut lock = stdout.lock();
+  let run = run_case_inproc(&case, &wroot, &mut stats, start_from, Some(&mut lock));
+  let viols: Vec<Value> = run
+    .violations
+    .iter()
+    .map(|x| {
+      let pin = run.pins.iter().find(|(v, _)| v.same_kind(x)).map(|(_, m)| serde_json::to_value(m).unwrap());
+      json!({"class": x.class, "site": x.site, "detail": x.detail, "pin": pin})
+    })
+    .collect();
+  let out = json!({
+    "violations": viols,
+    "counters": stats.counters,
+    "sites": stats.sites.iter().collect::<Vec<_>>(),
+    "fingerprints": stats.fingerprints.iter().collect::<Vec<_>>(),
+    "trace": run.trace,
+  });
+  use std::io::Write as _;
+  let _ = writeln!(lock, "R {}", out);
+  0
 }
 
 pub fn shrink_candidates(case: &CorruptCase) -> Vec<CorruptCase> {
